@@ -42,6 +42,13 @@ def gen12(rng):
         base["X"] = X
         if rng.random() < 0.5:
             base["output_dtype"] = "str"
+    if base["ftype"] == "categ" and rng.random() < 0.35:
+        # a previous discretization handed over: string modalities pre-grouped two by two
+        mods = sorted({dec(t) for t in base["X"] if t != ["nan"] and isinstance(dec(t), str)})
+        if len(mods) >= 3 and all(isinstance(dec(t), str) for t in base["X"] if t != ["nan"]):
+            rng.shuffle(mods)
+            groups = [mods[i:i + 2] for i in range(0, len(mods), 2)]
+            base["pregroup"] = [[enc(g[0]), encs(g)] for g in groups]
     if rng.random() < 0.6 and base["min_freq_mod"] is None:
         base["min_freq_mod"] = rng.choice([base["min_freq"], base["min_freq"] / 4, base["min_freq"] * 0.8])
     return base
@@ -89,6 +96,9 @@ class C12(Prop):
             kw["quantitative_features"] = [F]
         elif ft == "categ":
             kw["qualitative_features"] = [F]
+            if case.get("pregroup"):
+                from props.c01 import pregroup_of
+                kw["values_orders"] = {F: pregroup_of(case)}
         else:
             kw["ordinal_features"] = [F]
             kw["values_orders"] = {F: decs(case["order"])}
